@@ -37,14 +37,17 @@ CONSTANTS NServers,   \* real servers 1..NServers; the users' home servers: crea
           Gap,        \* TRUE: an event may also be delivered while (at most GapMax) prev events are missing:
                       \* they are fetched and processed first (get_missing_events)
           LateJoin,   \* TRUE: servers 1 and 2 may send before server 3 has joined
+          BobLevel,   \* the level (rank) the room's first power-levels event gives bob, Absent: bob is not listed.  With
+                      \* a moderator on the second server two servers send power events concurrently: the order in
+                      \* which state resolution replays them matters
           SendKinds   \* the kinds of Room.tla's Send explored
 
 VARIABLES srv,    \* srv[s]: what server s holds
-          bad,    \* history: events that the auth events they cite do not allow (sent by a byzantine server)
+          badEv,    \* history: events that the auth events they cite do not allow (sent by a byzantine server)
           stale,  \* history: events that cite the auth events of an earlier state, which the sender's current state does not allow
           hist    \* history: the steps taken, with the acting servers' results (for the replay)
 
-fvars == <<vars, srv, bad, stale, hist>>
+fvars == <<vars, srv, badEv, stale, hist>>
 
 Obs == 0
 Servers == 1..NServers
@@ -55,10 +58,14 @@ ASSUME /\ NServers \in {2, 3}
        /\ Byz \subseteq Servers /\ 1 \notin Byz
        /\ Dishonest = (Byz # {})
        /\ SendKinds \subseteq Kinds
+       /\ BobLevel \in LevelOrAbsent
 
 Home(u) == CASE u \in {"creator", "alice"} -> 1
              [] u = "bob" -> 2
              [] OTHER -> IF NServers >= 3 THEN 3 ELSE 2
+
+\* the creation prefix: Room.tla's, bob listed in the power levels if so configured
+FedPrefix(k) == IF k = 3 THEN [Prefix[3] EXCEPT !.plu = [@ EXCEPT !["bob"] = BobLevel]] ELSE Prefix[k]
 
 GapMax == 2
 PrefixLen == 5          \* create, creator's join, power levels, join rules, alice's join: sent by server 1
@@ -152,7 +159,7 @@ Handover(EE, S, j) ==
 (***************************************************************************)
 FInit == /\ E = <<>> /\ after = <<>> /\ last = 0 /\ before = {} /\ nbad = 0
          /\ srv = [s \in {Obs} \cup Servers |-> Empty]
-         /\ bad = {} /\ stale = {}
+         /\ badEv = {} /\ stale = {}
          /\ hist = <<>>
 
 Step(a, s, e, via, outs) == [a |-> a, s |-> s, e |-> e, via |-> via, res |-> outs]
@@ -168,7 +175,7 @@ LocalNew(a, s, via) ==
 Create ==
     /\ N < PrefixLen
     /\ LET k == N + 1
-           ev == Prefix[k]
+           ev == FedPrefix(k)
            EE == Append(E, ev)
        IN /\ ev.prev = srv[1].tips
           /\ ev.auth = {p \in srv[1].cur : KeyOf(E, p) \in NeededKeys(EE, k)}
@@ -178,7 +185,7 @@ Create ==
     /\ LET p == LocalNew("create", 1, 0) IN
           /\ srv' = [srv EXCEPT ![Obs] = p.o.L, ![1] = p.r.L]
           /\ hist' = Append(hist, Step("create", 1, Len(E'), 0, <<p.r.out>>))
-    /\ UNCHANGED <<bad, stale>>
+    /\ UNCHANGED <<badEv, stale>>
 
 NFree == N - PrefixLen - (Cardinality({s \in Servers : InRoom(s)}) - 1)     \* events that are neither prefix nor federated joins
 AllJoined == \A s \in Servers : InRoom(s)
@@ -199,7 +206,7 @@ JoinWith(s, u, via, ts) ==
           /\ srv' = [srv EXCEPT ![Obs] = p.o.L, ![via] = p.r.L, ![s] = H]
           /\ hist' = Append(hist, Step("join", s, i, via,
                                <<p.r.out, [s |-> s, e |-> i, v |-> "accepted", sa |-> H.cur, tips |-> H.tips, cur |-> H.cur]>>))
-    /\ UNCHANGED <<bad, stale>>
+    /\ UNCHANGED <<badEv, stale>>
 
 Join(s, u, via) == \E ts \in TSChoices : JoinWith(s, u, via, ts)
 
@@ -214,8 +221,8 @@ SendWith(s, u, kind, t, lvl, rule, ts) ==
     /\ Plausible(srv[s].cur, u, kind) = TRUE
     /\ Send(u, kind, t, lvl, rule, srv[s].tips, ts, srv[s].cur)
     /\ (s \notin Byz => nbad' = nbad)                   \* honest servers send only what their state allows
-    /\ (nbad' > nbad => Cardinality(bad \cup stale) < MaxBad)
-    /\ bad' = IF nbad' > nbad THEN bad \cup {Len(E')} ELSE bad
+    /\ (nbad' > nbad => Cardinality(badEv \cup stale) < MaxBad)
+    /\ badEv' = IF nbad' > nbad THEN badEv \cup {Len(E')} ELSE badEv
     /\ stale' = stale
     /\ LET p == LocalNew("send", s, 0) IN
           /\ srv' = [srv EXCEPT ![Obs] = p.o.L, ![s] = p.r.L]
@@ -228,14 +235,14 @@ SendOn(s, u, kind) == \E ts \in TSChoices, p \in Params(u, kind) : SendWith(s, u
 \* before the ban)
 SendStaleWith(s, u, kind, t, lvl, rule, ts, x) ==
     /\ MaySend /\ InRoom(s) /\ Home(u) = s /\ s \in Byz
-    /\ Cardinality(bad \cup stale) < MaxBad
+    /\ Cardinality(badEv \cup stale) < MaxBad
     /\ x \in HasState(srv[s]) /\ srv[s].sa[x] # srv[s].cur
     /\ \A tp \in srv[s].tips : x \in Ancestors(E, tp)
     /\ Plausible(srv[s].sa[x], u, kind) = TRUE
     /\ Send(u, kind, t, lvl, rule, srv[s].tips, ts, srv[s].sa[x])
     /\ nbad' = nbad                                    \* the stale state allows it ...
     /\ AllowedAt(E', Ver, srv[s].cur, Len(E')) = FALSE \* ... the current state does not
-    /\ stale' = stale \cup {Len(E')} /\ bad' = bad
+    /\ stale' = stale \cup {Len(E')} /\ badEv' = badEv
     /\ LET p == LocalNew("send", s, 0) IN
           /\ srv' = [srv EXCEPT ![Obs] = p.o.L, ![s] = p.r.L]
           /\ hist' = Append(hist, Step("stale", s, Len(E'), x, <<p.r.out>>))
@@ -251,7 +258,7 @@ Deliver(s, e) ==
     /\ LET r == Process(E, after, srv[s], s, e) IN
           /\ srv' = [srv EXCEPT ![s] = r.L]
           /\ hist' = Append(hist, Step("deliver", s, e, 0, <<r.out>>))
-    /\ UNCHANGED <<vars, bad, stale>>
+    /\ UNCHANGED <<vars, badEv, stale>>
 
 \* the prev events of e, transitively, that s lacks (down to events it has processed)
 RECURSIVE MissingBelow(_, _, _)
@@ -272,7 +279,7 @@ DeliverGap(s, e) ==
            r == ProcessAll(E, after, srv[s], s, M \cup {e}, <<>>)
        IN /\ srv' = [srv EXCEPT ![s] = r.L]
           /\ hist' = Append(hist, Step("gap", s, e, 0, r.outs))
-    /\ UNCHANGED <<vars, bad, stale>>
+    /\ UNCHANGED <<vars, badEv, stale>>
 
 FNext ==
     \/ Create
@@ -349,7 +356,7 @@ HonestRoomsAgree ==
 
 \* (8) an event that the auth events it cites do not allow is accepted by no honest server
 BadNeverAccepted ==
-    \A s \in Judges : \A e \in srv[s].kn \cap bad : srv[s].vd[e] # "accepted"
+    \A s \in Judges : \A e \in srv[s].kn \cap badEv : srv[s].vd[e] # "accepted"
 
 (***************************************************************************)
 (* Oracle sanity                                                           *)
@@ -362,7 +369,7 @@ TypeOK ==
          /\ \A e \in HasState(L) : L.sa[e] \subseteq L.kn
          /\ L.cur \subseteq L.kn
     /\ srv[Obs].kn = DOMAIN E /\ HasState(srv[Obs]) = DOMAIN E
-    /\ bad \subseteq DOMAIN E /\ stale \subseteq DOMAIN E /\ Len(after) = N
+    /\ badEv \subseteq DOMAIN E /\ stale \subseteq DOMAIN E /\ Len(after) = N
 
 \* the extremities are the accepted events that no accepted event descends from
 TipsAreFrontier ==
